@@ -274,6 +274,20 @@ pub fn all(prop: &str, cancelable: bool) -> Vec<Template> {
             p.finish(1, r2);
             p.done()
         }));
+        // ... and the live trace starts late: its root is created on a queue the running cycle has
+        // already drained, the shared span finishes on a queue drained afterwards, the cancel of the
+        // other trace was applied a cycle before
+        v.push(tpl("cancelled-trace-shares-span/live-trace-starts-late", stepped(3, false), 80_000, move || {
+            let mut p = B::new(2, c);
+            let r1 = p.root(0);
+            p.cancel(0, r1);
+            let r2 = p.root(0);
+            let sh = p.child_multi(1, &[r1, r2]);
+            p.finish(1, sh);
+            p.finish(0, r2);
+            p.finish(0, r1);
+            p.done()
+        }));
         // cancel() without cancelable: attachments parked before and after must survive
         v.push(tpl("cancel-between-attachments", stepped(3, true), 40_000, move || {
             let mut p = B::new(1, c);
